@@ -571,6 +571,145 @@ func vfRoutingTable(res *vrt.Result) (evals, nontrivial int64) {
 	return
 }
 
+// vfRoutingHistories: the routing clause over histories instead of single states. One instance (n1, no local
+// stream for the shard) with intra-proxy streams towards n2 and n3; every sequence (depth <= 4, thorough 5) of
+// ownership events as n1 sees them - a peer's state snapshot that claims the shard, one that no longer claims it,
+// a peer leaving - with a message and an acknowledgement routed after EVERY event (so anything remembered from an
+// earlier routing decision is exercised). Reference: the claimants are the peers whose latest state claims the
+// shard and that have not left; delivery must report true with exactly one copy handed to a claimant when there
+// is one, and false with nothing handed over when there is none.
+func vfRoutingHistories(res *vrt.Result, depth int) (evals, nontrivial int64) {
+	events := []string{"claim:n2", "claim:n3", "unclaim:n2", "unclaim:n3", "leave:n2", "leave:n3"}
+	var seqs [][]string
+	var rec func(cur []string, gone map[string]bool)
+	rec = func(cur []string, gone map[string]bool) {
+		if len(cur) > 0 {
+			seqs = append(seqs, append([]string(nil), cur...))
+		}
+		if len(cur) == depth {
+			return
+		}
+		for _, ev := range events {
+			f := strings.Split(ev, ":")
+			if gone[f[1]] {
+				continue // nothing is heard from an instance after it left (a late snapshot is the known finding of the convergence clause)
+			}
+			g2 := map[string]bool{}
+			for k, v := range gone {
+				g2[k] = v
+			}
+			if f[0] == "leave" {
+				g2[f[1]] = true
+			}
+			rec(append(cur, ev), g2)
+		}
+	}
+	rec(nil, map[string]bool{})
+	for _, seq := range seqs {
+		mc := &config.MemberlistConfig{Enabled: true, NodeName: "n1", ProxyAddresses: map[string]string{"n1": "a1", "n2": "a2", "n3": "a3"}}
+		sm := NewShardManager(mc, config.ShardCountConfig{Mode: config.ShardCountRouting}, encryption.TLSConfig{}, vfNoopLoggers()).(*shardManagerImpl)
+		sm.SetupCallbacks()
+		sm.started = true
+		target := history.ClusterShardID{ClusterID: 2, ShardID: 1}
+		source := history.ClusterShardID{ClusterID: 1, ShardID: 1}
+		mgr := sm.GetIntraProxyManager()
+		copies := map[string]int{}
+		var cancels []func()
+		for _, peer := range []string{"n2", "n3"} {
+			peer := peer
+			ss := vfNewServerStream(target, source, nil)
+			ss.onSend = func(*adminservice.StreamWorkflowReplicationMessagesResponse) error { copies[peer]++; return nil }
+			cs := &vfClientStream{ctx: context.Background(), md: metadata.MD{}, recvQ: make(chan vfItem, 1), brk: make(chan struct{})}
+			cs.onSend = func(*adminservice.StreamWorkflowReplicationMessagesRequest) error { copies[peer]++; return nil }
+			mgr.RegisterSender(peer, target, source, &intraProxyStreamSender{logger: log.NewNoopLogger(), shardManager: sm, peerNodeName: peer, targetShardID: target, sourceShardID: source, sourceStreamServer: ss})
+			mgr.streamsMu.Lock()
+			mgr.peers[peer].receivers[peerStreamKey{targetShard: target, sourceShard: source}] = &intraProxyStreamReceiver{logger: log.NewNoopLogger(), shardManager: sm, intraMgr: mgr, peerNodeName: peer, targetShardID: target, sourceShardID: source, streamClient: cs}
+			mgr.streamsMu.Unlock()
+			cancels = append(cancels, ss.cancel)
+		}
+		claims := map[string]bool{}
+		for i, ev := range seq {
+			f := strings.Split(ev, ":")
+			switch f[0] {
+			case "claim", "unclaim":
+				// the peer's full state as push/pull delivers it: it claims both shards of the pair, or none
+				st := NodeShardState{NodeName: f[1], Shards: map[string]ShardInfo{}, Updated: time.Now()}
+				if f[0] == "claim" {
+					st.Shards[ClusterShardIDtoShortString(target)] = ShardInfo{ID: target, Created: time.Now()}
+					st.Shards[ClusterShardIDtoShortString(source)] = ShardInfo{ID: source, Created: time.Now()}
+				}
+				b, _ := json.Marshal(st)
+				sm.delegate.MergeRemoteState(b, false)
+				claims[f[1]] = f[0] == "claim"
+			case "leave":
+				(&shardEventDelegate{manager: sm, logger: log.NewNoopLogger()}).NotifyLeave(&memberlist.Node{Name: f[1]})
+				delete(claims, f[1])
+			}
+			var claimants []string
+			for p, c := range claims {
+				if c {
+					claimants = append(claimants, p)
+				}
+			}
+			sort.Strings(claimants)
+			for _, kind := range []string{"message", "ack"} {
+				before := map[string]int{"n2": copies["n2"], "n3": copies["n3"]}
+				var got bool
+				var panicked string
+				func() {
+					defer func() {
+						if p := recover(); p != nil {
+							panicked = fmt.Sprint(p)
+						}
+					}()
+					shutdown := channel.NewShutdownOnce()
+					if kind == "message" {
+						got = sm.DeliverMessagesToShardOwner(target, &RoutedMessage{SourceShard: source, Resp: &adminservice.StreamWorkflowReplicationMessagesResponse{}}, shutdown, log.NewNoopLogger())
+					} else {
+						got = sm.DeliverAckToShardOwner(source, &RoutedAck{TargetShard: target, Req: &adminservice.StreamWorkflowReplicationMessagesRequest{}}, shutdown, log.NewNoopLogger(), 7, true)
+					}
+				}()
+				evals++
+				replay := map[string]any{"part": "TestVerifC09", "routing_history": seq[:i+1], "kind": kind}
+				where := fmt.Sprintf("events %v, then a %s for the shard (claimants as n1 was told: %v)", seq[:i+1], kind, claimants)
+				if panicked != "" {
+					res.Violate("routing-history/panic/"+kind, where+": "+panicked, replay)
+					continue
+				}
+				delta := map[string]int{"n2": copies["n2"] - before["n2"], "n3": copies["n3"] - before["n3"]}
+				total := delta["n2"] + delta["n3"]
+				isClaimant := func(p string) bool { return claims[p] }
+				switch {
+				case len(claimants) == 0:
+					nontrivial++
+					if got || total != 0 {
+						res.Violate("routing-history/handed-to-an-instance-that-does-not-own/"+kind, fmt.Sprintf("%s: no instance owns the shard, yet the call returned %v and handed over copies %v", where, got, delta), replay)
+					}
+				default:
+					if got && total != 1 {
+						res.Violate("routing-history/reported-delivered-but-"+fmt.Sprint(total)+"-copies/"+kind, fmt.Sprintf("%s: returned true, copies %v", where, delta), replay)
+					}
+					if !got && total != 0 {
+						res.Violate("routing-history/reported-undelivered-but-handed-over/"+kind, fmt.Sprintf("%s: returned false, copies %v", where, delta), replay)
+					}
+					if !got {
+						res.Violate("routing-history/known-remote-owner-not-used/"+kind, fmt.Sprintf("%s: an owner with a live stream is known, the call returned false", where), replay)
+					}
+					for _, p := range []string{"n2", "n3"} {
+						if delta[p] > 0 && !isClaimant(p) {
+							res.Violate("routing-history/handed-to-an-instance-that-does-not-own/"+kind, fmt.Sprintf("%s: a copy went to %s, which does not own the shard (any more)", where, p), replay)
+						}
+					}
+				}
+			}
+		}
+		for _, c := range cancels {
+			c()
+		}
+	}
+	return
+}
+
 var vfT *testing.T
 
 func TestVerifC09(t *testing.T) {
@@ -593,6 +732,7 @@ func TestVerifC09(t *testing.T) {
 			}
 		} else {
 			vfRoutingTable(res)
+			vfRoutingHistories(res, 4)
 		}
 		return
 	}
@@ -683,6 +823,13 @@ func TestVerifC09(t *testing.T) {
 		summary = append(summary, fmt.Sprintf("%+v: %d states, depth %d", cfg, len(seen), depth))
 	}
 	rEvals, rNon := vfRoutingTable(res)
+	hDepth := 4
+	if vrt.Thorough() {
+		hDepth = 5
+	}
+	hEvals, hNon := vfRoutingHistories(res, hDepth)
+	res.Set("routing_history_deliveries", hEvals)
+	res.Set("routing_history_deliveries_with_no_owner", hNon)
 	res.Set("states", states)
 	res.Set("transitions", transitions)
 	res.Set("traces_validated_against_impl", transitions)
@@ -690,7 +837,7 @@ func TestVerifC09(t *testing.T) {
 	res.Set("routing_table_cases", rEvals)
 	res.Set("routing_table_cases_undelivered_or_inconsistent", rNon)
 	res.Set("exhaustive", exhaustive)
-	res.Set("explanation", "convergence: every transition calls the real RegisterShard / UnregisterShard / shardDelegate.NotifyMsg / MergeRemoteState / LocalState / shardEventDelegate.NotifyLeave of 2-3 real shardManagerImpl instances; announcements, state snapshots and leave notifications are in-flight objects the explorer delivers in every order, at most one duplicate each; from every state everything in flight is delivered, live pairs exchange fresh state, and the ownership oracle is evaluated. routing: every combination of {local stream present, closed-but-registered, absent} x {remote owner with stream, owner's peer known without a stream for this pair, owner without any peer state, unknown, owner without a configured address} x {message, ack with forwarding, ack without} through the real DeliverMessagesToShardOwner / DeliverAckToShardOwner with fake intra-proxy streams")
+	res.Set("explanation", "convergence: every transition calls the real RegisterShard / UnregisterShard / shardDelegate.NotifyMsg / MergeRemoteState / LocalState / shardEventDelegate.NotifyLeave of 2-3 real shardManagerImpl instances; announcements, state snapshots and leave notifications are in-flight objects the explorer delivers in every order, at most one duplicate each; from every state everything in flight is delivered, live pairs exchange fresh state, and the ownership oracle is evaluated. routing: every combination of {local stream present, closed-but-registered, absent} x {remote owner with stream, owner's peer known without a stream for this pair, owner without any peer state, unknown, owner without a configured address} x {message, ack with forwarding, ack without} through the real DeliverMessagesToShardOwner / DeliverAckToShardOwner with fake intra-proxy streams; routing histories: every sequence (depth 4, thorough 5) of {a peer's snapshot claims the shard, no longer claims it, a peer leaves} for two peers with live intra-proxy streams, a message and an ack routed after every event: exactly one copy to a current claimant, or reported undelivered when there is none")
 	res.Sample(summary)
 	res.Assume("the sending half of an announcement (broadcastShardChange needs a live memberlist) is transcribed: one message per instance listed in the sender's remoteNodeStates, stamped with a strictly increasing clock at broadcast time; memberlist itself (reliable send, push/pull, leave detection) is the environment")
 	res.Assume("one clock for all instances (no skew); a claim (RegisterShard + creating its announcements) is an atomic step; every instance knows every other before the first claim")
